@@ -1,6 +1,7 @@
 package engine
 
 import (
+	"crypto/md5"
 	"fmt"
 	"path/filepath"
 	"sort"
@@ -255,8 +256,13 @@ func (w *World) hostilePar1(r *Run) string {
 	t := r.T
 	t.Begin("hostile-par1")
 	defer t.End()
-	kinds := []string{"flip-in-volume", "truncate-volume", "foreign-volume", "garbage-volume", "flip-in-index", "empty-volume"}
+	kinds := []string{"flip-in-volume", "truncate-volume", "foreign-volume", "garbage-volume", "flip-in-index", "empty-volume", "forged-volume"}
 	kind := kinds[t.Draw(len(kinds), "kind")]
+	return w.hostilePar1Kind(r, kind)
+}
+
+func (w *World) hostilePar1Kind(r *Run, kind string) string {
+	t := r.T
 	var present []int
 	for v := 1; v <= 99; v++ {
 		if _, ok := w.Disk.Get(w.VolumePath(v)); ok {
@@ -287,6 +293,21 @@ func (w *World) hostilePar1(r *Run) string {
 		}
 		w.Disk.Put(p, b)
 		r.Logf("hostile %s %s", kind, filepath.Base(p))
+	case "forged-volume":
+		// a volume that passes every check of the format (control hash
+		// recomputed) but whose parity payload is wrong
+		p, b := pick()
+		v := ref.ParsePar1(b)
+		if p == "" || !v.OK || len(v.Data) == 0 {
+			return "none"
+		}
+		off := len(b) - len(v.Data) + t.Draw(len(v.Data), "off")
+		b[off] ^= byte(1 + t.Draw(255, "xor"))
+		sum := md5.Sum(b[0x20:])
+		copy(b[0x10:0x20], sum[:])
+		w.Disk.Put(p, b)
+		r.Logf("hostile forged volume %s (payload altered, control hash recomputed)", filepath.Base(p))
+		r.Probe("forged-volume")
 	case "foreign-volume":
 		// a valid volume of another set under the next free volume name
 		other := []ref.Par1File{{Name: "foreign.bin", Data: expandContent(ckRandom, t.Draw64(0, "fseed"), 50, 4), Status: 1}}
